@@ -139,6 +139,32 @@ pub fn run_lterm(args: &[Sexp]) -> String {
             let found = m.contains_key(&b);
             format!("{} sym={} refl={} hash_equal={} map_lookup={}", e, sym, refl, hs, found)
         }
+        "eqm" => {
+            // as "eq", after the first term was traversed (not changed) through the &mut accessors on a handle that
+            // shares its cells with other handles: equality, hash and map lookup must not notice
+            fn touch(t: &mut T) {
+                if let Some(h) = t.head_mut() {
+                    touch(h);
+                }
+                if let Some(n) = t.tail_mut() {
+                    touch(n);
+                }
+            }
+            let (a, b) = (t(1), t(2));
+            let mut a2 = a.clone();
+            touch(&mut a2);
+            for x in a2.iter_mut() {
+                let _ = x;
+            }
+            let e = a2 == b;
+            let sym = b == a2;
+            let refl = a2 == a;
+            let hs = hash_of(&a2) == hash_of(&b);
+            let mut m = std::collections::HashMap::new();
+            m.insert(a2.clone(), 1);
+            let found = m.contains_key(&b);
+            format!("{} sym={} refl={} hash_equal={} map_lookup={}", e, sym, refl, hs, found)
+        }
         "from_vec" => named(&LTerm::from_vec(ts(1))),
         "from_array" => named(&LTerm::from_array(ts(1).as_slice())),
         "collect" => named(&ts(1).into_iter().collect::<T>()),
